@@ -548,3 +548,14 @@ M("C08", "C08-COL", TJ, "        return CJokerHelper(all_data, self.prior, trend
 M("C11", "C11-TREND", DH, "    return all_data, ids, trend_M\n", "    return all_data, ids[np.argsort(t)], trend_M\n", "labels returned in another order than the design matrix used")
 M("C04", "C04-INFER", SM, "            samples[\"ln_posterior\"] = posterior.logp.to_numpy().ravel()\n", "            samples[\"ln_posterior\"] = posterior.logp.to_numpy().T.ravel()\n", "log-posterior flattened in another order than the parameters")
 M("C05", "C05-DTYPE", UT, "                batch = np.zeros((len(arr), len(columns)), dtype=arr.dtype)\n", "                batch = np.zeros((len(arr), len(columns)))\n", "slice reader allocates double precision up front")
+
+# ---------------------------------------------------------------- round-6 clauses
+M("C09", "C09-STATE", PR, "        model=None,\n        pars=None,\n    ):\n        r\"\"\"\n        An alternative initializer", "        model=None,\n        pars={},\n    ):\n        r\"\"\"\n        An alternative initializer", "mutable default forwarded by JokerPrior.default")
+M("C16", "C16-P", UT, "            i1 = i2\n", "            i1 += i2 - i1\n", "cursor updated in place")
+M("C17", "C17-META", SM, "        if isinstance(samples, (Row, Table, QTable)):\n", "        if isinstance(samples, Table):\n", "metadata branch no longer covers Row")
+M("C12", "C12-PATHS", SM, "        self.tbl.meta[\"t_ref\"] = t_ref\n", "        if t_ref is not None:\n            self.tbl.meta[\"t_ref\"] = t_ref\n", "t_ref stored only when given")
+M("C02", "C02-NPRIOR", MP, "    return np.concatenate(results)\n", "    lls = np.concatenate(results)\n    lls.sort()\n    return lls\n", "likelihoods sorted in place before they are returned")
+M("C10", "C10-ALIAS", PR, "    @deprecated_renamed_argument(\n        \"random_state\", \"rng\", since=\"v1.3\", warning_type=DeprecationWarning\n    )\n    def sample(", "    def sample(", "renaming decorator dropped from prior.sample")
+M("C11", "C11-NAMES", PR, "        self.pars = pars\n\n    @classmethod", "        self.pars = pars\n        if \"t_peri\" not in self.model.named_vars:\n            with self.model:\n                pm.Deterministic(\"t_peri\", pars[\"P\"] * pars[\"M0\"] / (2 * np.pi))\n\n    @classmethod", "t_peri registered by the prior")
+M("C13", "C13-TMP", UT, "            f = NamedTemporaryFile(mode=\"r+\", suffix=\".hdf5\", delete=False)\n            f.close()\n", "            from tempfile import mkstemp\n            _fd, _name = mkstemp(suffix=\".hdf5\")\n            f = NamedTemporaryFile(mode=\"r+\", suffix=\".hdf5\", delete=False)\n            f.close()\n", "mkstemp descriptor never closed")
+T("C16", UT, "            i1 = i2\n", "            i1 = i1 + (i2 - i1)\n", "cursor re-bound through an equal expression")
